@@ -22,7 +22,7 @@ WViewNext ==
 WStep == IF nops < WBuild THEN WBuildStep
          ELSE \/ /\ VMutNext /\ last'.res = "ok"
                  \* mutations while an iterator has no reference node yet meet a known defect (crash): sampled sparsely
-                 /\ ((\E i \in 1..Len(its) : ~its[i].det /\ its[i].cur = 0) => nops % 10 = 0)
+                 /\ ((\E i \in 1..Len(its) : ~its[i].det /\ its[i].cur = 0) => nops % 20 = 0)
               \/ WViewNext
               \/ \E d \in Docs : VPlain(CreateText(d, AllStrs[1])) \/ VPlain(CreateElement(d, NameSeq[1])) \/ VPlain(CreateFragment(d))
 WNext == \/ /\ nops < MaxOps - 1 /\ nops' = nops + 1 /\ WStep
